@@ -279,7 +279,7 @@ func (a *Adversary) act() {
 		return
 	}
 	byz := a.byzIds[r.Intn(len(a.byzIds))]
-	switch r.Intn(20) {
+	switch r.Intn(22) {
 	case 0: // replay old traffic
 		if len(net.seen) > 0 {
 			s := net.seen[r.Intn(len(net.seen))]
@@ -566,6 +566,42 @@ func (a *Adversary) act() {
 		a.toAll(a.mkC(byz, protocol.LEAN_HELIX_COMMIT, inst, h, v, blockHash(other)), "byz-commit-other-hash")
 		if string(byz) != string(a.leaderOf(v)) {
 			a.toAll(a.mkP(byz, protocol.LEAN_HELIX_PREPARE, inst, h, v, blockHash(other)), "byz-prepare-other-hash")
+		}
+	case 19, 20: // a prepared proof naming two blocks: genuine PREPARE signatures for the block that was really prepared in a view the Byzantine
+		// member led, glued to that leader's own signature over ANOTHER block for the same view; sent as its vote, and as a NEW_VIEW when it leads again
+		for pv := uint64(0); pv <= v; pv++ {
+			bl := a.leaderOf(pv)
+			if !a.isByz(bl) {
+				continue
+			}
+			proof, _ := a.genuineProof(h, pv)
+			if proof == nil || len(proof.PrepareSenders) == 0 {
+				continue
+			}
+			other := a.newBlock(h, false)
+			ppref := a.refB(protocol.LEAN_HELIX_PREPREPARE, inst, h, pv, blockHash(other))
+			proof.PreprepareBlockRef = ppref
+			proof.PreprepareSender = a.senderB(bl, h, ppref.Build().Raw())
+			for nv := v; nv <= v+2; nv++ {
+				if nv <= pv {
+					continue
+				}
+				ld := a.leaderOf(nv)
+				if a.isByz(ld) {
+					votes := a.genuineVotes(h, nv, false, nil)
+					votes = append([]*protocol.ViewChangeMessageContentBuilder{a.vcContent(ld, protocol.LEAN_HELIX_VIEW_CHANGE, inst, h, nv, proof)}, votes...)
+					for _, b := range a.byzIds {
+						if string(b) != string(ld) {
+							votes = append(votes, a.vcContent(b, protocol.LEAN_HELIX_VIEW_CHANGE, inst, h, nv, nil))
+						}
+					}
+					pp := a.ppContent(ld, protocol.LEAN_HELIX_PREPREPARE, inst, h, nv, blockHash(other))
+					a.toAll(a.mkNV(ld, protocol.LEAN_HELIX_NEW_VIEW, inst, h, nv, votes, pp, other), "nv-proof-two-blocks")
+				} else if n, ok := net.nodes[string(ld)]; ok {
+					a.inject(n, a.mkVC(a.vcContent(byz, protocol.LEAN_HELIX_VIEW_CHANGE, inst, h, nv, proof), other), "vc-proof-two-blocks")
+				}
+			}
+			return
 		}
 	default: // mutate one aspect of a message seen on the wire and deliver it
 		a.mutate(target)
